@@ -292,8 +292,12 @@ def main():
     if b["harness"][0] and b.get("driver", (False,))[0]:
         try:
             if replay:
-                mod.replay(ctx, replay)
+                if hasattr(mod, "replay"):
+                    mod.replay(ctx, replay)
+                else:
+                    generic_replay(ctx, replay)
             else:
+                run_corpus(ctx)
                 mod.run(ctx)
         except Exception as e:
             traceback.print_exc()
@@ -349,6 +353,60 @@ TRUSTED_BASE = [
     "correspondence harness (Rust, /verif/harness), model driver (OCaml, /verif/driver), tools/*.py glue",
     "modelled not verified: nom 7 combinators, byteorder, mysql_common lenenc/constants, std Vec/HashMap/io::Write::write_all/str::from_utf8/trim, integer Display",
 ]
+
+
+class RawCase:
+    """a case given as text (corpus / replay files)"""
+    def __init__(self, text, cid=None):
+        self.text = text if text.endswith("\n") else text + "\n"
+        first = self.text.split("\n", 1)[0].split()
+        self.id = cid or (first[1] if len(first) > 1 else "raw")
+        if cid:
+            self.text = "case %s\n" % cid + self.text.split("\n", 1)[1]
+        m = re.search(r"lim=(\d+)", self.text)
+        self.lim = int(m.group(1)) if m else 16777215
+        self.reads = re.search(r"^reads (.*)$", self.text, re.M).group(1).split(" ") if re.search(r"^reads (.*)$", self.text, re.M) else []
+        self.meta = {}
+
+    def render(self):
+        if self.reads is not None:
+            return re.sub(r"^reads .*$", lambda m: "reads " + " ".join(self.reads), self.text, count=1, flags=re.M)
+        return self.text
+
+
+def run_corpus(ctx):
+    """corpus first: replays of fixed defects must agree with the model (no failure returns);
+    replays of known findings must still fail in the listed way"""
+    kf = ctx.known
+    cases, kinds = [], []
+    for section in ("fixed", "known"):
+        for e in kf.get(section, []):
+            if e.get("property") != ctx.prop:
+                continue
+            path = os.path.join(ROOT, e.get("replay", ""))
+            if not path.endswith(".case") or not os.path.exists(path):
+                continue
+            cases.append(RawCase(open(path).read(), cid="corpus_%d" % len(cases)))
+            kinds.append((section, e))
+    if not cases:
+        return
+    io, mo = run_conn(cases, ctx.prop + "corpus")
+    for c, (section, e) in zip(cases, kinds):
+        a = io.get(c.id, ["<none>"]); m = mo.get(c.id, ["<none>"])
+        ctx.corr["evaluations"] += 1
+        if section == "fixed":
+            res = a[-1]
+            if a != m or res.startswith("result|panic") or res == "result|hang":
+                ctx.violation("a repaired defect has returned (%s): impl %s, model %s" % (e["what"][:120], a[-1], m[-1]),
+                              c.render(), name="regress")
+        else:
+            key = e["key"].split(":", 1)[1]
+            if ("panic " + key) in a[-1]:
+                hit = "%s [%s]" % (e.get("what", key), e["key"])
+                if hit not in ctx.known_hits:
+                    ctx.known_hits.append(hit)
+            else:
+                say("note: known finding %s no longer reproduces with %s (now: %s)" % (e["key"], e["replay"], a[-1]))
 
 
 class Ctx:
@@ -456,6 +514,20 @@ def _impl_only(self, cases, oracle, nontrivial=lambda c, o: True, classify=None,
 
 
 Ctx.impl_only = _impl_only
+
+
+def generic_replay(ctx, path):
+    c = RawCase(open(path).read())
+    io, mo = run_conn([c], ctx.prop + "replay")
+    a = io.get(c.id, []); m = mo.get(c.id, [])
+    say("replay of %s: implementation vs model (%d / %d observations)" % (path, len(a), len(m)))
+    for i in range(max(len(a), len(m))):
+        x = a[i] if i < len(a) else "<end>"; y = m[i] if i < len(m) else "<end>"
+        say("%s impl : %s" % ("  " if x == y else "!=", x[:300]))
+        if x != y:
+            say("   model: %s" % y[:300])
+    if a != m:
+        ctx.violation("replay: model and implementation disagree", c.render(), name="replay", found=True)
 
 
 def first_diff(a, b):
